@@ -22,6 +22,7 @@ func init() {
 }
 
 func runC18(c *Ctx) {
+	c.messagesAreNotFormats()
 	c.rule("M1", "Execute: LogStart() dominates the run; every path from the run to an exit passes exactly one LogEnd(e) with e the run's result", 2)
 	c.rule("M2", "Execute returns the run's result (converted by ConvertCommandError/ConvertProcessError only); the conversion yields nil only for a nil error or ESRCH", 3)
 	c.rule("M7", "Execute reports a failed run whose process context is done with that context's error (cancelled / timeout kind), and only then", 1)
